@@ -30,6 +30,10 @@ type World struct {
 	AllThunks bool
 	// FailLeaves makes every resolver of a leaf-typed (scalar / enum) field fail: many errors per response
 	FailLeaves bool
+	// MutateArgs makes every resolver modify the argument values it received IN PLACE after reading them (maps: add and
+	// overwrite keys; lists: reverse, overwrite; recursively) — what a resolver that normalises its input does. The
+	// library must hand every call its own copy, so this must not change any response.
+	MutateArgs bool
 	fields     map[string]*gq.FieldDesc
 }
 
@@ -92,7 +96,11 @@ func (w *World) value(te *gq.TypeExpr, seed uint64, depth int) interface{} {
 		if len(td.Values) == 0 {
 			return nil
 		}
-		return gq.FromWire(td.Values[int(seed%uint64(len(td.Values)))].Internal)
+		ev := td.Values[int(seed%uint64(len(td.Values)))]
+		if ev.Internal == nil {
+			return ev.Name // the library uses the name as internal value when none is configured
+		}
+		return gq.FromWire(ev.Internal)
 	case "SCALAR":
 		if len(td.Serialize) > 0 {
 			return gq.FromWire(td.Serialize[int(seed%uint64(len(td.Serialize)))][0])
@@ -126,6 +134,12 @@ func (w *World) Resolve(p graphql.ResolveParams) (interface{}, error) {
 	}
 	ab, _ := json.Marshal(gq.ToWire(p.Args)) // sorted keys
 	seed := mix(mix(parent, pt+"."+p.Info.FieldName), string(ab))
+	if w.MutateArgs {
+		for _, v := range p.Args {
+			mutateInPlace(v)
+		}
+		p.Args["zz_added_by_resolver"] = true
+	}
 	te, err := gq.ParseType(fd.Type)
 	if err != nil {
 		return nil, err
@@ -145,6 +159,8 @@ func (w *World) Resolve(p graphql.ResolveParams) (interface{}, error) {
 		rerr = errors.New("boom " + pt + "." + p.Info.FieldName)
 	case w.Errors && mode%9 == 1:
 		val = nil
+	case len(p.Info.FieldName) >= 4 && p.Info.FieldName[:4] == "echo" && te.NamedName() == "String" && te.Kind != "list":
+		val = string(ab) // what this call received, before the resolver touched it
 	default:
 		val = w.value(te, seed, 0)
 	}
@@ -153,6 +169,38 @@ func (w *World) Resolve(p graphql.ResolveParams) (interface{}, error) {
 		return func() (interface{}, error) { return v, e }, nil
 	}
 	return val, rerr
+}
+
+// mutateInPlace changes a coerced argument value where it lies.
+func mutateInPlace(v interface{}) {
+	switch x := v.(type) {
+	case map[string]interface{}:
+		for _, e := range x {
+			mutateInPlace(e)
+		}
+		for k := range x {
+			switch x[k].(type) {
+			case map[string]interface{}, []interface{}:
+			default:
+				x[k] = "overwritten"
+			}
+		}
+		x["zz_added_by_resolver"] = 1
+	case []interface{}:
+		for _, e := range x {
+			mutateInPlace(e)
+		}
+		for i, j := 0, len(x)-1; i < j; i, j = i+1, j-1 {
+			x[i], x[j] = x[j], x[i]
+		}
+		for i := range x {
+			switch x[i].(type) {
+			case map[string]interface{}, []interface{}:
+			default:
+				x[i] = "overwritten"
+			}
+		}
+	}
 }
 
 // Hooks wires the world into gq.Build.
@@ -179,6 +227,26 @@ func (w *World) Hooks() gq.Hooks {
 // Wide is a hand-written schema in which every map the library ranges over has at least four entries:
 // 4 arguments, 4 enum values, 4 input fields, 4 interface fields, 4 implementers, a 4-member union, a directive
 // with 4 arguments, an input object used ONLY by a directive argument, nested abstract fields.
+// echoArgs: arguments with composite DEFAULT values (list, nested list, input object with a nested one, list of input
+// objects) next to a plain one that requests supply through a variable.
+func echoArgs() []gq.ArgDesc {
+	obj := func(kv ...interface{}) map[string]interface{} {
+		m := map[string]interface{}{}
+		for i := 0; i+1 < len(kv); i += 2 {
+			m[kv[i].(string)] = kv[i+1]
+		}
+		return m
+	}
+	return []gq.ArgDesc{
+		{Name: "term", Type: "String"},
+		{Name: "limit", Type: "Int", HasDef: true, Default: 10},
+		{Name: "tags", Type: "[String]", HasDef: true, Default: []interface{}{"b", "a", "c"}},
+		{Name: "grid", Type: "[[Int]]", HasDef: true, Default: []interface{}{[]interface{}{2, 1}, []interface{}{3}}},
+		{Name: "opts", Type: "In", HasDef: true, Default: obj("a", 1, "b", 2, "e", obj("a", 5))},
+		{Name: "ins", Type: "[In]", HasDef: true, Default: []interface{}{obj("a", 2), obj("a", 1, "e", obj("b", 3))}},
+	}
+}
+
 func Wide() *gq.SchemaDesc {
 	intArgs := func(names ...string) []gq.ArgDesc {
 		var as []gq.ArgDesc
@@ -199,13 +267,17 @@ func Wide() *gq.SchemaDesc {
 			{Name: "r", Type: "DirEnum"}, {Name: "s", Type: "Int"}}},
 		gq.TypeDesc{Kind: "ENUM", Name: "DirEnum", Values: []gq.EnumValDesc{{Name: "K", Internal: "K"}, {Name: "L", Internal: "L"},
 			{Name: "M", Internal: "M"}, {Name: "N", Internal: "N"}}},
+		// two names per internal value, one value without internal value (the name is used), one aliasing that name
+		gq.TypeDesc{Kind: "ENUM", Name: "Alias", Values: []gq.EnumValDesc{{Name: "RED", Internal: 0}, {Name: "CRIMSON", Internal: 0},
+			{Name: "BLUE"}, {Name: "AZURE", Internal: "BLUE"}}},
 		gq.TypeDesc{Kind: "INTERFACE", Name: "Node", Fields: ifaceFields, ResolveType: true},
 		gq.TypeDesc{Kind: "INTERFACE", Name: "Typed", Fields: []gq.FieldDesc{{Name: "w", Type: "Int"}}}, // resolved through IsTypeOf
 	)
 	for _, n := range []string{"T1", "T2", "T3", "T4"} {
 		fs := append([]gq.FieldDesc{}, ifaceFields...)
 		fs = append(fs, gq.FieldDesc{Name: "me", Type: "String"}, gq.FieldDesc{Name: "u", Type: "U"}, gq.FieldDesc{Name: "kids", Type: "[Node!]"},
-			gq.FieldDesc{Name: "nn", Type: "Int!"})
+			gq.FieldDesc{Name: "nn", Type: "Int!"}, gq.FieldDesc{Name: "al", Type: "Alias"}, gq.FieldDesc{Name: "als", Type: "[Alias!]"},
+			gq.FieldDesc{Name: "echoT", Type: "String", Args: echoArgs()})
 		s.Types = append(s.Types, gq.TypeDesc{Kind: "OBJECT", Name: n, Interfaces: []string{"Node", "Typed"}, Fields: fs, IsTypeOf: true})
 	}
 	s.Types = append(s.Types,
@@ -218,8 +290,10 @@ func Wide() *gq.SchemaDesc {
 			{Name: "aa", Type: "Int"}, {Name: "ab", Type: "Int"}, {Name: "ac", Type: "Int"}, {Name: "ad", Type: "Int"},
 			{Name: "node", Type: "Node"}, {Name: "nodes", Type: "[Node]"}, {Name: "typed", Type: "Typed"}, {Name: "u", Type: "U"}, {Name: "us", Type: "[U!]"},
 			{Name: "t1", Type: "T1"}, {Name: "strict", Type: "T2!"},
+			{Name: "alias", Type: "Alias", Args: []gq.ArgDesc{{Name: "x", Type: "Alias"}}}, {Name: "aliases", Type: "[Alias]"},
+			{Name: "echo", Type: "String", Args: echoArgs()},
 		}},
-		gq.TypeDesc{Kind: "OBJECT", Name: "M", Fields: []gq.FieldDesc{{Name: "m1", Type: "T1"}, {Name: "m2", Type: "Int"}, {Name: "m3", Type: "Node"}, {Name: "m4", Type: "Int"}}},
+		gq.TypeDesc{Kind: "OBJECT", Name: "M", Fields: []gq.FieldDesc{{Name: "echoM", Type: "String", Args: echoArgs()}, {Name: "m1", Type: "T1"}, {Name: "m2", Type: "Int"}, {Name: "m3", Type: "Node"}, {Name: "m4", Type: "Int"}}},
 	)
 	m := "M"
 	s.Mutation = &m
